@@ -2,9 +2,15 @@
 
 Tie between the Lean theorem (C03.serializable: protected operations are atomic under every
 schedule) and the code:
-  (i)  translator: AST of LRI/LRU -> Generated/C03_CacheLocks.lean (which methods touch cache state,
-       which run wholly under `with self._lock`, which dict mutators are not overridden);
-       Lean re-proves `all_state_methods_protected` / `no_inherited_mutators` by `decide` every run;
+  (i)  translator (class LockAnalysis): AST of LRI/LRU -> Generated/C03_CacheLocks.lean: per public method the raw
+       references (private state / C-level dict mutators / bare cache; cache operations invoked) each with
+       "inside a lock region?" and "in a loop?", where a lock region is `with self._lock:` (or a local alias),
+       `self._lock.acquire(); try: ... finally: self._lock.release()`, a locking decorator, or a call of a private
+       helper that is itself wholly locked; where `self._lock` is assigned and with what; which lock-requiring helpers are reachable
+       outside a region; which dict mutators are not overridden.  Lean recomputes the judgement from the raw
+       references and re-proves `lock_discipline_from_refs`, `all_state_methods_protected`, `public_methods_atomic`,
+       `lock_created_once_reentrant`, `helpers_only_under_lock`, `no_inherited_mutators` by `decide` every run;
+       the methods it rejects become the targets of the intensified (focus) search;
   (ii) acceptance: real threads under the deterministic opcode-level scheduler (bv/sched.py); at every
        entry of a ring helper the running thread must own the cache's lock (dynamic lock-set);
   (iii) correspondence: the observed run (results of every locked operation + final contents + final
@@ -68,6 +74,18 @@ def apply_op(cache, op):
     if kind == 'update':
         cache.update([tuple(p) for p in op[1]])
         return None
+    if kind == 'updated':        # mapping argument: the `E.keys()` branch of update()
+        cache.update(dict((k, v) for k, v in op[1]))
+        return None
+    if kind == 'updatec':        # another (thread-private) LRU as argument: keys() + __getitem__ of that cache
+        other = type(cache)(max_size=len(op[1]) + 1)
+        for k, v in op[1]:
+            other[k] = v
+        cache.update(other)
+        return None
+    if kind == 'copyp':          # copy(), then everything observable about the copy: items in dict order, class,
+        c2 = cache.copy()        # capacity, and its eviction order (probed on the private copy)
+        return [canon(list(c2.items())), type(c2).__name__, c2.max_size, probe_order(c2, c2.max_size)]
     if kind == 'popitem':
         return canon(cache.popitem())
     if kind == 'clear':
@@ -78,6 +96,11 @@ def apply_op(cache, op):
         return sorted(canon(list(c2.items())))
     if kind == 'eq':
         return cache == dict((k, v) for k, v in op[1])
+    if kind == 'ne':
+        return cache != dict((k, v) for k, v in op[1])
+    if kind == 'ior':
+        cache |= dict((k, v) for k, v in op[1])
+        return None
     if kind == 'len':
         return len(cache)
     if kind == 'contains':
@@ -119,15 +142,414 @@ def merges(progs):
     return rec(counts)
 
 
+PURE_GLOBAL_OK = True   # calls of module-level / builtin names are not cache operations
+
+
+def _is_self(n):
+    return isinstance(n, ast.Name) and n.id == 'self'
+
+
+def _is_super_call(n):
+    return isinstance(n, ast.Call) and isinstance(n.func, ast.Name) and n.func.id == 'super'
+
+
+class LockAnalysis:
+    """Lock discipline of LRI / LRU read off the AST, independent of how the lock is written down.
+
+    Lock regions of a function:   `with self._lock:` (or a local alias of it) body;
+                                  `self._lock.acquire()` immediately followed by `try: … finally: self._lock.release()`
+                                  (try body, handlers and else-branch; the finally block up to the release);
+                                  a method decorated with a module-level decorator whose wrapper is
+                                  `with self._lock: return fn(self, …)` (the whole body);
+                                  a call `self._h(args)` of a private helper that is itself *self-locking* (has a
+                                  region and touches nothing outside it) - bound methods of self passed as arguments
+                                  are allowed if the helper uses the parameter only inside its own region.
+    A node *touches* state if it refers to a private attribute of self (other than the lock and self-locking
+    helpers), calls a C-level dict mutator through super(), iterates / hands out the bare cache, or calls a
+    locally bound callable (a parameter or local that may hold a bound method) that is not a bound public method.
+    """
+
+    def __init__(self, tree):
+        self.classes = {}
+        for node in tree.body:
+            if isinstance(node, ast.ClassDef) and node.name in ('LRI', 'LRU'):
+                self.classes[node.name] = {fn.name: fn for fn in node.body if isinstance(fn, ast.FunctionDef)}
+        self._lockmap = {}
+        self._self_locking = {}
+        self._oprefs = {}
+        self.locking_decorators = set()
+        for node in tree.body:
+            if isinstance(node, ast.FunctionDef) and self._is_locking_decorator(node):
+                self.locking_decorators.add(node.name)
+        self.lock_assigned_in = []
+        self.lock_ctors = []
+        for cname in ('LRI', 'LRU'):
+            for fname, fn in self.classes.get(cname, {}).items():
+                for n in ast.walk(fn):
+                    if isinstance(n, (ast.Assign, ast.AugAssign, ast.AnnAssign)):
+                        tgts = n.targets if isinstance(n, ast.Assign) else [n.target]
+                        for t in tgts:
+                            for tt in ast.walk(t):
+                                if isinstance(tt, ast.Attribute) and tt.attr == '_lock' and _is_self(tt.value):
+                                    self.lock_assigned_in.append('%s.%s' % (cname, fname))
+                                    v = getattr(n, 'value', None)
+                                    if isinstance(v, ast.Call) and isinstance(v.func, ast.Name):
+                                        self.lock_ctors.append(v.func.id)
+                                    elif isinstance(v, ast.Call) and isinstance(v.func, ast.Attribute):
+                                        self.lock_ctors.append(v.func.attr)
+                                    else:
+                                        self.lock_ctors.append('?')
+
+    @staticmethod
+    def _is_locking_decorator(dec):
+        """def dec(fn): def wrapper(self, *a, **kw): with self._lock: return fn(self, *a, **kw) ; return wrapper"""
+        if len(dec.args.args) != 1:
+            return False
+        fname = dec.args.args[0].arg
+        inner = [n for n in dec.body if isinstance(n, ast.FunctionDef)]
+        if len(inner) != 1 or not inner[0].args.args:
+            return False
+        w = inner[0]
+        sname = w.args.args[0].arg
+        body = [b for b in w.body if not (isinstance(b, ast.Expr) and isinstance(b.value, ast.Constant))]
+        if len(body) != 1 or not isinstance(body[0], ast.With):
+            return False
+        wi = body[0]
+        if not any(isinstance(it.context_expr, ast.Attribute) and it.context_expr.attr == '_lock' and
+                   isinstance(it.context_expr.value, ast.Name) and it.context_expr.value.id == sname for it in wi.items):
+            return False
+        calls_fn = any(isinstance(n, ast.Call) and isinstance(n.func, ast.Name) and n.func.id == fname and n.args and
+                       isinstance(n.args[0], ast.Name) and n.args[0].id == sname for b in wi.body for n in ast.walk(b))
+        returns_wrapper = any(isinstance(n, ast.Return) and isinstance(n.value, ast.Name) and n.value.id == w.name
+                              for n in dec.body)
+        return calls_fn and returns_wrapper
+
+    # ---- method resolution
+    def resolve(self, cname, mname):
+        for c in ([cname, 'LRI'] if cname == 'LRU' else [cname]):
+            fn = self.classes.get(c, {}).get(mname)
+            if fn is not None:
+                return c, fn
+        return None, None
+
+    @staticmethod
+    def _private(name):
+        return name.startswith('_') and not name.startswith('__')
+
+    # ---- lock regions
+    @staticmethod
+    def _locals_of(fn):
+        names = {a.arg for a in fn.args.args + fn.args.kwonlyargs + fn.args.posonlyargs}
+        if fn.args.vararg:
+            names.add(fn.args.vararg.arg)
+        if fn.args.kwarg:
+            names.add(fn.args.kwarg.arg)
+        for n in ast.walk(fn):
+            if isinstance(n, ast.Name) and isinstance(n.ctx, ast.Store):
+                names.add(n.id)
+        names.discard('self')
+        return names
+
+    @staticmethod
+    def _lock_aliases(fn):
+        al = set()
+        for n in ast.walk(fn):
+            if isinstance(n, ast.Assign) and len(n.targets) == 1 and isinstance(n.targets[0], ast.Name):
+                v = n.value
+                if isinstance(v, ast.Attribute) and v.attr == '_lock' and _is_self(v.value):
+                    al.add(n.targets[0].id)
+        return al
+
+    def _is_lock(self, e, aliases):
+        if isinstance(e, ast.Attribute) and e.attr == '_lock' and _is_self(e.value):
+            return True
+        return isinstance(e, ast.Name) and e.id in aliases
+
+    def _lock_call(self, stmt, what, aliases):
+        if not isinstance(stmt, ast.Expr):
+            return False
+        c = stmt.value
+        return isinstance(c, ast.Call) and isinstance(c.func, ast.Attribute) and c.func.attr == what \
+            and self._is_lock(c.func.value, aliases)
+
+    def lockmap(self, cname, fn):
+        """id(node) -> True for every node of `fn` inside a lock region; also 'form' and 'irregular'"""
+        key = (cname, id(fn))
+        if key in self._lockmap:
+            return self._lockmap[key]
+        m = {'forms': set(), 'irregular': False, 'locked': set()}
+        self._lockmap[key] = m
+        aliases = self._lock_aliases(fn)
+
+        def mark(node):
+            for n in ast.walk(node):
+                m['locked'].add(id(n))
+
+        def unmark_closures(node):
+            # a nested function / lambda may run later, outside the region
+            for n in ast.walk(node):
+                if isinstance(n, (ast.FunctionDef, ast.Lambda, ast.AsyncFunctionDef)) and n is not fn:
+                    for x in ast.walk(n):
+                        m['locked'].discard(id(x))
+
+        def stmts(body):
+            i = 0
+            while i < len(body):
+                st = body[i]
+                if isinstance(st, ast.With) and any(self._is_lock(it.context_expr, aliases) for it in st.items):
+                    m['forms'].add('with')
+                    for b in st.body:
+                        mark(b)
+                elif self._lock_call(st, 'acquire', aliases):
+                    nxt = body[i + 1] if i + 1 < len(body) else None
+                    rel = None
+                    if isinstance(nxt, ast.Try):
+                        for j, f in enumerate(nxt.finalbody):
+                            if self._lock_call(f, 'release', aliases):
+                                rel = j
+                                break
+                    if rel is None:
+                        m['irregular'] = True       # acquire without the try/finally release right behind it
+                    else:
+                        m['forms'].add('acquire-finally')
+                        for b in nxt.body + nxt.orelse + nxt.finalbody[:rel]:
+                            mark(b)
+                        for h in nxt.handlers:
+                            mark(h)
+                        stmts(nxt.finalbody[rel + 1:])
+                        i += 1
+                elif self._lock_call(st, 'release', aliases):
+                    m['irregular'] = True
+                else:
+                    for field in ('body', 'orelse', 'finalbody'):
+                        sub = getattr(st, field, None)
+                        if isinstance(sub, list) and sub and isinstance(sub[0], ast.stmt):
+                            stmts(sub)
+                    for h in getattr(st, 'handlers', []) or []:
+                        stmts(h.body)
+                i += 1
+        if any(isinstance(d, ast.Name) and d.id in self.locking_decorators for d in fn.decorator_list):
+            m['forms'].add('decorator')         # the whole call runs inside the decorator's `with self._lock:`
+            for b in fn.body:
+                mark(b)
+        stmts(fn.body)
+        # delegation to a self-locking private helper
+        for n in ast.walk(fn):
+            if id(n) in m['locked'] or not isinstance(n, ast.Call):
+                continue
+            f = n.func
+            if isinstance(f, ast.Attribute) and _is_self(f.value) and self._private(f.attr):
+                hc, h = self.resolve(cname, f.attr)
+                if h is not None and h is not fn and self.self_locking(hc if cname != 'LRU' else cname, h):
+                    m['forms'].add('delegates')
+                    m['locked'].add(id(n))
+                    m['locked'].add(id(f))
+                    m['locked'].add(id(f.value))
+                    params = [a.arg for a in h.args.args][1:]
+                    for idx, a in enumerate(n.args):
+                        if isinstance(a, ast.Attribute) and _is_self(a.value) and idx < len(params) \
+                                and self._param_only_in_region(cname, h, params[idx]):
+                            m['locked'].add(id(a))      # bound method handed to a helper that calls it under the lock
+                            m['locked'].add(id(a.value))
+        unmark_closures(fn)
+        return m
+
+    def _param_only_in_region(self, cname, h, pname):
+        m = self.lockmap(cname, h)
+        return all(id(n) in m['locked'] for n in ast.walk(h) if isinstance(n, ast.Name) and n.id == pname
+                   and isinstance(n.ctx, ast.Load))
+
+    # ---- touching nodes
+    def touching_nodes(self, cname, fn):
+        """nodes of fn that touch cache state (see class doc); each as (node, why)"""
+        out = []
+        local_names = self._locals_of(fn)
+        bound_public = set()
+        for n in ast.walk(fn):
+            if isinstance(n, ast.Assign) and len(n.targets) == 1 and isinstance(n.targets[0], ast.Name):
+                v = n.value
+                if isinstance(v, ast.Attribute) and _is_self(v.value) and not self._private(v.attr):
+                    bound_public.add(n.targets[0].id)
+        for n in ast.walk(fn):
+            if isinstance(n, ast.Attribute) and _is_self(n.value):
+                a = n.attr
+                if a == '_lock' or not self._private(a):
+                    continue
+                hc, h = self.resolve(cname, a)
+                if h is not None and h is not fn and self.self_locking(cname, h):
+                    continue
+                out.append((n, 'self.' + a))
+            elif isinstance(n, ast.Call):
+                f = n.func
+                if isinstance(f, ast.Attribute) and _is_super_call(f.value) and f.attr in DICT_MUTATORS:
+                    out.append((n, 'super().' + f.attr))
+                elif isinstance(f, ast.Name) and f.id in local_names and f.id not in bound_public:
+                    out.append((n, 'call of local ' + f.id))
+                elif any(_is_self(a) for a in n.args) or any(_is_self(k.value) for k in n.keywords):
+                    if not (isinstance(f, ast.Name) and f.id in ('isinstance', 'id', 'type', 'callable', 'getattr',
+                                                                 'hasattr')):
+                        out.append((n, 'bare self handed to a callable'))
+            elif isinstance(n, (ast.For, ast.comprehension)) and _is_self(n.iter):
+                out.append((n, 'iterates self'))
+        return out
+
+    def self_locking(self, cname, fn):
+        key = (cname, id(fn))
+        if key in self._self_locking:
+            return bool(self._self_locking[key])
+        self._self_locking[key] = False      # cycle guard: a helper is not self-locking through itself
+        m = self.lockmap(cname, fn)
+        ok = bool(m['forms'] - {'delegates'}) and not m['irregular'] and \
+            all(id(n) in m['locked'] for n, _ in self.touching_nodes(cname, fn))
+        self._self_locking[key] = ok
+        return ok
+
+    # ---- operations invoked outside the lock
+    def outside_ops(self, cname, fn):
+        m = self.lockmap(cname, fn)
+        local_names = self._locals_of(fn)
+        loops = set()
+        for n in ast.walk(fn):
+            if isinstance(n, (ast.For, ast.While)):
+                for b in n.body:
+                    for x in ast.walk(b):
+                        loops.add(id(x))
+            elif isinstance(n, (ast.ListComp, ast.SetComp, ast.DictComp, ast.GeneratorExp)):
+                for x in ast.walk(n):
+                    loops.add(id(x))
+        total = 0
+        why = []
+
+        self._oprefs[(cname, id(fn))] = oprefs = []
+
+        def count(n, what):
+            nonlocal total
+            oprefs.append((what, id(n) in m['locked'], id(n) in loops))
+            if id(n) in m['locked']:
+                return
+            total += 2 if id(n) in loops else 1
+            why.append(what)
+        for n in ast.walk(fn):
+            if isinstance(n, ast.Subscript) and _is_self(n.value):
+                count(n, 'self[…]')
+            elif isinstance(n, ast.Call):
+                f = n.func
+                if isinstance(f, ast.Attribute) and _is_self(f.value) and not self._private(f.attr):
+                    if self.resolve(cname, f.attr)[1] is not None or (
+                            f.attr != '__class__' and callable(getattr(dict, f.attr, None))):
+                        count(n, 'self.%s()' % f.attr)
+                elif isinstance(f, ast.Attribute) and _is_super_call(f.value):
+                    count(n, 'super().%s()' % f.attr)
+                elif isinstance(f, ast.Attribute) and isinstance(f.value, ast.Name) and f.value.id == 'dict' and \
+                        n.args and _is_self(n.args[0]):
+                    count(n, 'dict.%s(self, …)' % f.attr)
+                elif isinstance(f, ast.Name) and f.id in local_names:
+                    count(n, 'call of local %s' % f.id)
+                elif any(_is_self(a) for a in n.args) and not (isinstance(f, ast.Name) and f.id in (
+                        'isinstance', 'id', 'type', 'callable', 'getattr', 'hasattr', 'super')):
+                    count(n, 'self handed to %s' % (getattr(f, 'id', None) or getattr(f, 'attr', '?')))
+            elif isinstance(n, ast.Attribute) and _is_self(n.value) and not self._private(n.attr) \
+                    and isinstance(n.ctx, ast.Load):
+                # a bound public method taken without being called on the spot
+                c, h = self.resolve(cname, n.attr)
+                if (h is not None or n.attr in DICT_MUTATORS) and not self._is_callee(fn, n):
+                    count(n, 'bound self.%s' % n.attr)
+            elif isinstance(n, ast.Compare):
+                operands = [n.left] + list(n.comparators)
+                for i, op in enumerate(n.ops):
+                    if isinstance(op, (ast.In, ast.NotIn)) and _is_self(operands[i + 1]):
+                        count(n, 'in self')
+                    elif isinstance(op, (ast.Eq, ast.NotEq, ast.Lt, ast.LtE, ast.Gt, ast.GtE)) and \
+                            (_is_self(operands[i]) or _is_self(operands[i + 1])):
+                        count(n, 'self == …')
+            elif isinstance(n, (ast.For, ast.comprehension)) and _is_self(n.iter):
+                count(n, 'iterates self')
+        return total, why
+
+    @staticmethod
+    def _is_callee(fn, attr_node):
+        for n in ast.walk(fn):
+            if isinstance(n, ast.Call) and n.func is attr_node:
+                return True
+        return False
+
+    # ---- the table
+    def public_methods(self):
+        for cname in ('LRI', 'LRU'):
+            for name, fn in self.classes.get(cname, {}).items():
+                if name == '__init__' or self._private(name):
+                    continue    # constructor (object not shared yet) and private helpers
+                yield cname, name, fn
+
+    def rows(self):
+        rows = []
+        for cname, name, fn in self.public_methods():
+            m = self.lockmap(cname, fn)
+            touch = self.touching_nodes(cname, fn)
+            # `touches` keeps the old, coarse meaning: ANY reference to private state / helpers / dict mutators
+            coarse = bool(touch) or any(isinstance(n, ast.Attribute) and _is_self(n.value) and self._private(n.attr)
+                                        and n.attr != '_lock' for n in ast.walk(fn))
+            outside = [w for n, w in touch if id(n) not in m['locked']]
+            nops, why = self.outside_ops(cname, fn)
+            region = bool(m['forms'])
+            form = '+'.join(sorted(m['forms'])) or 'none'
+            if m['irregular']:
+                form += '+irregular'
+            refs = [(w, True, False, id(n) in m['locked'], False) for n, w in touch]
+            for n in ast.walk(fn):      # private references that are not touching: self-locking helpers
+                if isinstance(n, ast.Attribute) and _is_self(n.value) and self._private(n.attr) and n.attr != '_lock' \
+                        and not any(n is t for t, _ in touch):
+                    refs.append(('self.%s (self-locking helper)' % n.attr, True, False, True, False))
+            refs += [(w, False, True, lk, lp) for w, lk, lp in self._oprefs.get((cname, id(fn)), [])]
+            rows.append({'cls': cname, 'name': name, 'touches': coarse, 'refs': refs, 'irregular': m['irregular'],
+                         'locked': region and not outside and not m['irregular'], 'region': region, 'form': form,
+                         'outside_ops': nops, 'outside_touch': outside, 'outside_why': why})
+        return rows
+
+    @staticmethod
+    def row_ok(r):
+        """exactly what the Lean theorems all_state_methods_protected / public_methods_atomic demand"""
+        if r['touches'] and not r['locked']:
+            return False
+        return r['outside_ops'] == 0 or (r['outside_ops'] == 1 and not r['region'] and not r['touches'])
+
+    def lock_requiring_helpers(self):
+        out = []
+        for cname in ('LRI', 'LRU'):
+            for name, fn in self.classes.get(cname, {}).items():
+                if self._private(name) and not self.self_locking(cname, fn) and name not in out:
+                    out.append(name)
+        return out
+
+    def helper_reached_unlocked(self):
+        """(public or self-locking method, helper) pairs: a lock-requiring helper referenced outside a region"""
+        need = set(self.lock_requiring_helpers())
+        out = []
+        for cname in ('LRI', 'LRU'):
+            for name, fn in self.classes.get(cname, {}).items():
+                if name == '__init__' or (self._private(name) and not self.self_locking(cname, fn)):
+                    continue
+                m = self.lockmap(cname, fn)
+                for n in ast.walk(fn):
+                    if isinstance(n, ast.Attribute) and _is_self(n.value) and n.attr in need and id(n) not in m['locked']:
+                        out.append(('%s.%s' % (cname, name), n.attr))
+        return out
+
+
 class C03(Property):
     PID = 'C03'
     QUICK_BUDGET_S = 40
     THOROUGH_BUDGET_S = 800
-    RULE = ('a case = cache class, max_size, on_miss, initial content, 2-3 thread programs of 1-3 public-API '
-            'operations each, and a schedule (every choice of the opcode-level scheduler: systematic '
-            'single/double pre-emption placements or a seeded random walk). Non-trivial = at least one '
-            'pre-emption happened while some thread was inside a cache operation (a thread blocked on the '
-            'lock or was switched out mid-operation); distinct = distinct (programs, realised schedule).')
+    RULE = ('a case = cache class, max_size (1-3), on_miss, initial content, 2-3 thread programs of 1-3 public-API operations '
+            'each (20 kinds: item get/set/del, get, pop, popitem, setdefault, clear, update from pairs / a mapping / another '
+            'cache, |=, ==, !=, copy, copy observed through dict order + class + capacity + eviction order, len / in / keys), '
+            'and a schedule = every choice of the opcode-level scheduler: a single (thorough: double) pre-emption placed at a '
+            'given instruction, a focus schedule (victim thread pre-empted at its k-th instruction INSIDE a given method, the '
+            'other threads then run as far as they get), or a seeded sticky random walk. Families: 19 fixed conflict programs '
+            'x placements, every public method of the translator table as focus victim against evicting / deleting / clearing '
+            'adversaries, random programs. Non-trivial = at least one pre-emption happened while some thread was inside a '
+            'cache operation (a thread blocked on the lock or was switched out mid-operation); distinct = distinct '
+            '(programs, realised schedule).')
     ASSUMPTIONS = ['CPython pre-empts threads only between bytecode instructions (GIL); C-level dict '
                    'operations are atomic', 'threading.RLock is a correct re-entrant lock (replaced by a '
                    'scheduler-aware equivalent in the harness)', 'free-threaded builds are out of scope']
@@ -167,77 +589,61 @@ class C03(Property):
     # ------------------------------------------------------------------ translator
     def regen(self):
         src = open(os.path.join(common.REPO, 'boltons', 'cacheutils.py')).read()
-        tree = ast.parse(src)
-        rows = []
-        overridden = {}
-        for node in tree.body:
-            if isinstance(node, ast.ClassDef) and node.name in ('LRI', 'LRU'):
-                overridden[node.name] = set()
-                for fn in node.body:
-                    if not isinstance(fn, ast.FunctionDef):
-                        continue
-                    overridden[node.name].add(fn.name)
-                    name = fn.name
-                    if name == '__init__' or (name.startswith('_') and not name.startswith('__')):
-                        continue   # constructor (object not shared yet) and private ring helpers
-                    rows.append((node.name, name, self._touches_state(fn), self._protected(fn)))
-        inherited = [m for m in DICT_MUTATORS if m not in overridden.get('LRI', set())]
+        an = LockAnalysis(ast.parse(src))
+        self._analysis = an
+        rows = an.rows()
+        # methods whose discipline the Lean theorems will reject -> the deep search is directed at them
+        self._flagged = [(r['cls'], r['name']) for r in rows if not an.row_ok(r)]
+        self._state_funcs = an.lock_requiring_helpers()
+        for where in an.lock_assigned_in:       # a lock (re)created outside the constructor: aim at its callers
+            hname = where.split('.')[1]
+            if hname not in ('__init__', '__new__'):
+                for cname, name, fn in an.public_methods():
+                    if (name == hname or any(isinstance(n, ast.Attribute) and n.attr == hname for n in ast.walk(fn))) \
+                            and (cname, name) not in self._flagged:
+                        self._flagged.append((cname, name))
+        inherited = [m for m in DICT_MUTATORS if m not in an.classes.get('LRI', {})]
         lines = ['/- GENERATED by harness/bv/props/c03.py from boltons/cacheutils.py (AST of LRI / LRU). Do not edit. -/',
                  'namespace Generated.C03', '',
+                 '/-- one reference inside a method body, as read off the AST: `touch` = it refers to private state /',
+                 '    a C-level dict mutator / the bare cache; `op` = it invokes a cache operation on self;',
+                 '    `underLock` = it lies inside a lock region; `inLoop` = inside a loop or comprehension -/',
+                 'structure Ref where', '  what : String', '  touch : Bool', '  op : Bool', '  underLock : Bool',
+                 '  inLoop : Bool', 'deriving Repr, DecidableEq', '',
+                 '/-- one public method of LRI / LRU (constructor and private helpers excluded).',
+                 '    `touches`: its body refers to private state (ring, link table, any `self._x`), to a C-level dict',
+                 '      mutator through `super()`, or iterates / hands out the bare cache;',
+                 '    `locked`: it has a lock region (`with self._lock:` / `self._lock.acquire(); try: … finally:',
+                 '      self._lock.release()` / a call of a private helper that is itself wholly locked) and NO such',
+                 '      reference lies outside the lock regions; `region`: it has a lock region; `form`: how the lock',
+                 '      is taken; `outsideOps`: number of cache operations (self[k], k in self, self.m(…), super().m(…),',
+                 '      len(self), …; counted twice inside a loop) invoked outside every lock region. -/',
                  'structure Method where', '  cls : String', '  name : String',
-                 '  touches : Bool', '  locked : Bool', 'deriving Repr, DecidableEq', '',
+                 '  touches : Bool', '  locked : Bool', '  region : Bool', '  form : String', '  outsideOps : Nat',
+                 '  irregular : Bool', '  refs : List Ref',
+                 'deriving Repr, DecidableEq', '',
                  'def methods : List Method := [']
-        lines += ['  ⟨"%s", "%s", %s, %s⟩%s' % (c, n, str(t).lower(), str(p).lower(), ',' if i < len(rows) - 1 else '')
-                  for i, (c, n, t, p) in enumerate(rows)]
+
+        def b(x):
+            return str(bool(x)).lower()
+        for i, r in enumerate(rows):
+            refs = ', '.join('⟨"%s", %s, %s, %s, %s⟩' % (w.replace('"', "'"), b(t), b(o), b(lk), b(lp))
+                             for w, t, o, lk, lp in r['refs'])
+            lines.append('  ⟨"%s", "%s", %s, %s, %s, "%s", %d, %s,\n    [%s]⟩%s' % (
+                r['cls'], r['name'], b(r['touches']), b(r['locked']), b(r['region']), r['form'], r['outside_ops'],
+                b(r['irregular']), refs, ',' if i < len(rows) - 1 else ''))
         lines += [']', '', '/-- dict mutators that LRI does not override (they would bypass the ring and the lock) -/',
                   'def inheritedMutators : List String := [%s]' % ', '.join('"%s"' % m for m in inherited), '',
+                  '/-- the methods that assign `self._lock`, and the callables they assign -/',
+                  'def lockAssignedIn : List String := [%s]' % ', '.join('"%s"' % m for m in an.lock_assigned_in),
+                  'def lockCtors : List String := [%s]' % ', '.join('"%s"' % m for m in an.lock_ctors), '',
+                  '/-- private helpers that must only run under the lock (they touch state and take no lock themselves),',
+                  '    and the public / self-locking methods from which each is reachable OUTSIDE a lock region -/',
+                  'def helpersNeedingLock : List String := [%s]' % ', '.join('"%s"' % m for m in self._state_funcs),
+                  'def helperReachedUnlocked : List (String × String) := [%s]' % ', '.join(
+                      '("%s", "%s")' % p for p in an.helper_reached_unlocked()), '',
                   'end Generated.C03', '']
         return {'C03_CacheLocks.lean': '\n'.join(lines)}
-
-    @staticmethod
-    def _strip_doc(body):
-        if body and isinstance(body[0], ast.Expr) and isinstance(getattr(body[0], 'value', None), ast.Constant) \
-                and isinstance(body[0].value.value, str):
-            return body[1:]
-        return body
-
-    def _protected(self, fn):
-        body = self._strip_doc(fn.body)
-        # comments are not in the AST; allow a trailing bare `return` / `return None`
-        while body and isinstance(body[-1], ast.Return) and (
-                body[-1].value is None or (isinstance(body[-1].value, ast.Constant) and body[-1].value.value is None)):
-            body = body[:-1]
-        if len(body) != 1 or not isinstance(body[0], ast.With):
-            return False
-        w = body[0]
-        for item in w.items:
-            e = item.context_expr
-            if isinstance(e, ast.Attribute) and e.attr == '_lock' and isinstance(e.value, ast.Name) and e.value.id == 'self':
-                return True
-        return False
-
-    def _touches_state(self, fn):
-        for n in ast.walk(fn):
-            if isinstance(n, ast.Attribute) and isinstance(n.value, ast.Name) and n.value.id == 'self':
-                if n.attr in STATE_ATTRS:
-                    return True
-                if n.attr.startswith('_') and not n.attr.startswith('__') and n.attr not in ('_lock',):
-                    return True     # private helper / private state
-            if isinstance(n, ast.Call):
-                f = n.func
-                if isinstance(f, ast.Attribute) and isinstance(f.value, ast.Call) and \
-                        isinstance(f.value.func, ast.Name) and f.value.func.id == 'super' and f.attr in DICT_MUTATORS:
-                    return True     # C-level dict mutation through super() (a lone super() reader is one atomic C call)
-                if isinstance(f, ast.Name) and f.id in ('len', 'list', 'dict', 'iter', 'sorted', 'tuple'):
-                    if any(isinstance(a, ast.Name) and a.id == 'self' for a in n.args):
-                        return True
-                # bare `self` handed to another callable (it will iterate the cache)
-                if any(isinstance(a, ast.Name) and a.id == 'self' for a in n.args) or \
-                        any(isinstance(k.value, ast.Name) and k.value.id == 'self' for k in n.keywords):
-                    return True
-            if isinstance(n, ast.For) and isinstance(n.iter, ast.Name) and n.iter.id == 'self':
-                return True
-        return False
 
     # ------------------------------------------------------------------ generation
     KEYS = [1, 2, 3, 4]
@@ -245,31 +651,19 @@ class C03(Property):
     def rand_op(self, rng, on_miss):
         k = rng.choice(self.KEYS)
         r = rng.random()
-        if r < 0.30:
-            return ['set', k, rng.randint(0, 9)]
-        if r < 0.42:
-            return ['get', k]
-        if r < 0.52:
-            return ['getd', k]
-        if r < 0.58:
-            return ['del', k]
-        if r < 0.64:
-            return ['popd', k]
-        if r < 0.70:
-            return ['setdefault', k, rng.randint(0, 9)]
-        if r < 0.76:
-            return ['update', [[rng.choice(self.KEYS), rng.randint(0, 9)] for _ in range(rng.randint(1, 3))]]
-        if r < 0.80:
-            return ['popitem']
-        if r < 0.83:
-            return ['clear']
-        if r < 0.87:
-            return ['copy']
-        if r < 0.92:
-            return ['len']
-        if r < 0.97:
-            return ['contains', k]
-        return ['eq', [[rng.choice(self.KEYS), rng.randint(0, 9)]]]
+        pairs = [[rng.choice(self.KEYS), rng.randint(0, 9)] for _ in range(rng.randint(1, 3))]
+        table = [(0.26, ['set', k, rng.randint(0, 9)]), (0.10, ['get', k]), (0.09, ['getd', k]), (0.06, ['del', k]),
+                 (0.05, ['popd', k]), (0.02, ['pop', k]), (0.07, ['setdefault', k, rng.randint(0, 9)]),
+                 (0.04, ['update', pairs]), (0.03, ['updated', pairs]), (0.03, ['updatec', pairs]),
+                 (0.02, ['ior', pairs]), (0.04, ['popitem']), (0.03, ['clear']), (0.03, ['copy']),
+                 (0.03, ['copyp']), (0.03, ['len']), (0.03, ['contains', k]), (0.01, ['keys']),
+                 (0.02, ['eq', pairs[:1]]), (0.01, ['ne', pairs[:1]])]
+        acc = 0.0
+        for w, op in table:
+            acc += w
+            if r < acc:
+                return op
+        return ['set', k, 0]
 
     def rand_programs(self, rng, nthreads, maxops):
         cls = rng.choice(['LRI', 'LRU'])
@@ -291,12 +685,25 @@ class C03(Property):
         {'cls': 'LRU', 'max': 2, 'on_miss': False, 'init': [[1, 0], [2, 0]], 'progs': [[['copy']], [['set', 3, 1], ['del', 2]]]},
         {'cls': 'LRI', 'max': 2, 'on_miss': False, 'init': [[1, 0]], 'progs': [[['setdefault', 2, 5]], [['setdefault', 2, 6]], [['popitem']]]},
         {'cls': 'LRU', 'max': 2, 'on_miss': False, 'init': [[1, 0], [2, 0]], 'progs': [[['clear']], [['set', 3, 1]]]},
+        # update() fed from another cache / a mapping while a second thread deletes and re-inserts
+        {'cls': 'LRU', 'max': 2, 'on_miss': False, 'init': [[1, 0], [2, 0]], 'progs': [[['updatec', [[3, 1], [1, 5]]]], [['del', 1], ['set', 4, 2]]]},
+        {'cls': 'LRI', 'max': 2, 'on_miss': False, 'init': [[1, 0]], 'progs': [[['updated', [[2, 1], [3, 1]]]], [['ior', [[4, 2]]]]]},
+        # setdefault on a cache with on_miss (nested __getitem__ -> on_miss -> __setitem__) vs eviction
+        {'cls': 'LRU', 'max': 2, 'on_miss': True, 'init': [[1, 0], [2, 0]], 'progs': [[['setdefault', 3, 5]], [['set', 4, 1], ['get', 1]]]},
+        {'cls': 'LRI', 'max': 1, 'on_miss': True, 'init': [[1, 0]], 'progs': [[['getd', 2]], [['setdefault', 3, 1]]]},
+        # copy() (items, dict order, eviction order of the copy) while the source is mutated
+        {'cls': 'LRU', 'max': 3, 'on_miss': False, 'init': [[1, 0], [2, 0], [3, 0]], 'progs': [[['copyp']], [['get', 1], ['set', 4, 1]]]},
+        {'cls': 'LRI', 'max': 2, 'on_miss': False, 'init': [[1, 0], [2, 0]], 'progs': [[['copyp']], [['pop', 1], ['set', 3, 3]]]},
+        # three threads
+        {'cls': 'LRU', 'max': 2, 'on_miss': False, 'init': [[1, 0], [2, 0]], 'progs': [[['set', 3, 1]], [['get', 1]], [['del', 2]]]},
+        {'cls': 'LRI', 'max': 2, 'on_miss': True, 'init': [[1, 0]], 'progs': [[['get', 2]], [['set', 3, 1]], [['popitem']]]},
+        {'cls': 'LRU', 'max': 1, 'on_miss': False, 'init': [[1, 0]], 'progs': [[['get', 1]], [['set', 2, 2]], [['setdefault', 1, 4]]]},
         # unlocked inherited readers racing with an evicting insert (known finding C03-readers)
         {'cls': 'LRU', 'max': 2, 'on_miss': False, 'init': [[1, 0], [2, 0]], 'progs': [[['set', 3, 1]], [['len']]]},
         {'cls': 'LRI', 'max': 2, 'on_miss': False, 'init': [[1, 0], [2, 0]], 'progs': [[['set', 3, 1]], [['contains', 1], ['contains', 3]]]},
     ]
 
-    def schedules_for(self, base, rng, systematic, nrandom):
+    def schedules_for(self, base, rng, systematic, nrandom, dense=False):
         """yield cases = base + schedule"""
         n = len(base['progs'])
         if systematic:
@@ -305,7 +712,7 @@ class C03(Property):
                 probe = dict(base, sched={'kind': 'preempt', 'first': first, 'points': []})
                 obs = self.impl(probe)
                 steps = obs.get('steps', 0)
-                stride = 1 if self.thorough else max(1, steps // 35)
+                stride = 1 if self.thorough else max(1, steps // (60 if dense else 35))
                 off = 0 if self.thorough else self.rng.randrange(stride)
                 for p in range(off, steps, stride):
                     yield dict(base, sched={'kind': 'preempt', 'first': first, 'points': [p]})
@@ -320,17 +727,82 @@ class C03(Property):
     def cases(self, budget_s):
         rng = self.rng
         self.warm_up()
+        # (1) fixed conflict programs: EVERY single pre-emption placement (thorough: also pairs) + random walks
         for base in self.FIXED:
-            yield from self.schedules_for(base, rng, systematic=True, nrandom=10 if not self.thorough else 60)
-        n = 60 if not self.thorough else 1500
+            yield from self.schedules_for(base, rng, systematic=True, nrandom=10 if not self.thorough else 60,
+                                          dense=True)
+        # (2) every public method of the translator's table as the victim of a pre-emption at its k-th own
+        #     instruction, against an evicting / deleting / clearing second thread
+        table = [(r['cls'], r['name']) for r in (self._analysis.rows() if getattr(self, '_analysis', None) else [])]
+        if not self.thorough:
+            yield from self.focus_cases(table, full=False, stride=3)
+        # (3) random programs (2-3 threads) x sticky random walks
+        n = 150 if not self.thorough else 3000
         for i in range(n):
             base = self.rand_programs(rng, rng.choice([2, 2, 3]), 2 if i % 3 else 3)
             yield from self.schedules_for(base, rng, systematic=(self.thorough and i % 10 == 0),
                                           nrandom=6 if not self.thorough else 12)
+        if self.thorough:       # the largest family last: all sizes, keys, adversaries, every k (may be cut by the budget)
+            yield from self.focus_cases(table, full=True, stride=1)
+
+    # ---- directed search: pre-empt INSIDE the methods the translator reports as not (wholly) protected
+    @staticmethod
+    def ops_for(name, k):
+        return {'__getitem__': [['get', k]], 'get': [['getd', k]], '__setitem__': [['set', k, 7]],
+                '__delitem__': [['del', k]], 'pop': [['popd', k], ['pop', k]], 'popitem': [['popitem']],
+                'clear': [['clear']], 'copy': [['copy']], 'setdefault': [['setdefault', k, 7]],
+                'update': [['update', [[k, 7], [k % 4 + 1, 8]]]], '__ior__': [['ior', [[k, 7], [k % 4 + 1, 8]]]],
+                '__eq__': [['eq', [[k, 0]]]], '__ne__': [['ne', [[k, 0]]]], '__contains__': [['contains', k]],
+                '__len__': [['len']], 'keys': [['keys']], '__iter__': [['keys']]}.get(name, [])
+
+    def focus_bases(self, flagged, full=True):
+        """(base case, victim tid, method name) for every method in `flagged` = [(cls, name)]"""
+        out = []
+        for cls, name in flagged:
+            classes = [cls] if cls == 'LRU' else ['LRI', 'LRU']
+            oms = [False, True] if name in ('__getitem__', 'get', 'setdefault') else [False]
+            for c in classes:
+                if c == 'LRU' and cls == 'LRI' and name in self._analysis.classes.get('LRU', {}):
+                    continue        # overridden: LRU has its own row
+                for m in ((1, 2, 3) if full else (2,)):
+                    init = [[k, 0] for k in range(1, m + 1)]
+                    fresh = [[5 + i, 1] for i in range(m)]
+                    for om in (oms if full else oms[-1:]):
+                        for key in (sorted({1, m, 4}) if full else [1]):
+                            for vop in self.ops_for(name, key):
+                                advs = [[['update', fresh]], [['set', p[0], p[1]] for p in fresh], [['del', key]],
+                                        [['clear']], [['set', key, 9]], [['popitem']], [vop]]
+                                if not full:
+                                    advs = [advs[0], advs[2], advs[3]]
+                                for adv in advs:
+                                    out.append(({'cls': c, 'max': m, 'on_miss': om, 'init': init,
+                                                 'progs': [[vop], adv]}, 0, name))
+        return out
+
+    def focus_cases(self, flagged, max_k=400, full=True, stride=1):
+        live = self.focus_bases(flagged, full)
+        self.rng.shuffle(live)
+        live.sort(key=lambda b: b[0]['max'])          # boundary size first
+        off = self.rng.randrange(stride) if stride > 1 else 0
+        for k in range(off, max_k, stride):
+            nxt = []
+            for base, victim, fn in live:
+                case = dict(base, sched={'kind': 'focus', 'victim': victim, 'fn': fn, 'k': k})
+                obs = self.impl(case)
+                yield case
+                if obs.get('focus_hit'):
+                    nxt.append((base, victim, fn))
+            live = nxt
+            if not live:
+                return
 
     def deep_cases(self, budget_s):
         rng = self.rng
         self.warm_up()
+        flagged = getattr(self, '_flagged', None) or []
+        if flagged:
+            self.stats['directed_at'] = ['%s.%s' % f for f in flagged]
+            yield from self.focus_cases(flagged)
         for base in self.FIXED:
             yield from self.schedules_for(base, rng, systematic=True, nrandom=40)
         while True:
@@ -357,6 +829,44 @@ class C03(Property):
                 state['cur'] = r.choice(runnable)
                 return state['cur']
             return choose
+        if sd['kind'] == 'focus':
+            # pre-empt the victim thread INSIDE method `fn`: let it run until it has executed `k` instructions
+            # while `fn` is on its stack (helpers called from `fn` count), then run the other threads (each as far
+            # as it gets: to completion or until it blocks on the lock), then resume the victim.  `again` = number
+            # of instructions after which the victim is pre-empted a second time (None = never).
+            victim, fn, k = sd['victim'], sd['fn'], sd['k']
+            st = {'phase': 0, 'count': 0, 'hit': False, 'cur': None, 'sched': None}
+
+            def choose(step, runnable):
+                s_ = st['sched']
+                if st['phase'] == 0:
+                    if victim not in runnable:
+                        return runnable[0]
+                    w = s_.where[victim] if s_ is not None else None
+                    if w and fn in w:
+                        if st['count'] >= k:
+                            st['phase'] = 1
+                            st['hit'] = True
+                        else:
+                            st['count'] += 1
+                            return victim
+                    else:
+                        return victim
+                if st['phase'] == 1:
+                    others = [t for t in runnable if t != victim]
+                    if others:
+                        if st['cur'] not in others:
+                            st['cur'] = others[0]
+                        return st['cur']
+                    st['phase'] = 2
+                return victim if victim in runnable else runnable[0]
+
+            def attach(s_):
+                st['sched'] = s_
+                s_.track_stack = True
+            choose.attach = attach
+            choose.state = st
+            return choose
         # preempt: run `first` (then round-robin) and switch to the next runnable thread at the given steps
         pts = set(sd['points'])
         state = {'cur': sd['first']}
@@ -379,16 +889,19 @@ class C03(Property):
         progs = [[(lambda c, op=op: canon(apply_op(c, op))) for op in p] for p in case['progs']]
         obs = {}
         try:
+            ch = self.chooser(case['sched'], len(progs))
             with time_limit(30):
-                r = sched.run(cu, progs, self.chooser(case['sched'], len(progs)),
+                r = sched.run(cu, progs, ch,
                               lambda: mk_cache(cu, case['cls'], case['max'], case['on_miss'], case['init']),
-                              max_steps=60000)
+                              max_steps=60000, state_funcs=getattr(self, '_state_funcs', None))
             cache = r['cache']
             obs = {'results': r['results'], 'steps': r['steps'], 'deadlock': r['deadlock'],
                    'step_limit': r['step_limit'], 'acquire_log': r['acquire_log'],
                    'lockset': [list(x) for x in r['lockset_violations']],
                    'switches': sum(1 for a, b in zip(r['schedule'], r['schedule'][1:]) if a != b),
                    'schedule_len': len(r['schedule'])}
+            if hasattr(ch, 'state'):
+                obs['focus_hit'] = bool(ch.state['hit'])
             try:
                 with time_limit(5):
                     obs['final'] = sorted(canon(list(dict.items(cache))))
@@ -512,6 +1025,11 @@ class C03(Property):
                 toks.append('D:%d:%d' % (op[1], op[2]))
             elif k == 'update':
                 toks.append('u:' + self._ptxt(op[1]))
+            elif k in ('updated', 'updatec'):   # a mapping yields each key once: first position, last value
+                last = dict((a, b) for a, b in op[1])
+                toks.append('u:' + self._ptxt([[a, last[a]] for a in dict.fromkeys(a for a, _ in op[1])]))
+            elif k == 'copyp':
+                toks.append('K')
             elif k == 'popitem':
                 toks.append('I')
             elif k == 'clear':
@@ -520,6 +1038,11 @@ class C03(Property):
                 toks.append('C')
             elif k == 'eq':
                 toks.append('e:' + self._ptxt(op[1]))
+            elif k == 'ne':
+                toks.append('n:' + self._ptxt(op[1]))
+            elif k == 'ior':                    # `cache |= dict(pairs)`: the dict yields each key once
+                last = dict((a, b) for a, b in op[1])
+                toks.append('i:' + self._ptxt([[a, last[a]] for a in dict.fromkeys(a for a, _ in op[1])]))
             else:
                 return None
         return ' '.join(toks)
@@ -559,15 +1082,24 @@ class C03(Property):
                     outs.append('f')
                 elif isinstance(v, int):
                     outs.append('v%d' % v)
-                elif op[0] == 'popitem':
+                elif op[0] == 'copyp' and isinstance(v, list) and len(v) == 4:
+                    outs.append('K%s/%s/%s/%s' % (self._ptxt(v[0]), v[1], v[2], self._order_txt(v[3])))
+                elif op[0] == 'popitem' and isinstance(v, list) and len(v) == 2 and all(isinstance(x, int) for x in v):
                     outs.append('p%d.%d' % (v[0], v[1]))
-                else:
+                elif isinstance(v, list) and all(isinstance(x, list) and len(x) == 2 and
+                                                 all(isinstance(y, int) for y in x) for x in v):
                     outs.append('L' + self._ptxt(v))
-        order = ';'.join(('+'.join(str(x) for x in g) or '-') if isinstance(g, list) else str(g) for g in obs.get('order', []))
+                else:       # a value no model run can produce (e.g. the repr of a private sentinel)
+                    outs.append('X' + repr(v).replace(' ', ''))
+        order = self._order_txt(obs.get('order', []))
         txt = (','.join(outs) or '-') + '|' + self._ptxt(obs.get('final', [])) + '|' + order
         if obs.get('lockset'):
             txt += ' LOCKSET-VIOLATION %r' % (obs['lockset'][:3],)
         return txt
+
+    @staticmethod
+    def _order_txt(order):
+        return ';'.join(('+'.join(str(x) for x in g) or '-') if isinstance(g, list) else str(g) for g in order)
 
     def shrink(self, case):
         progs = case['progs']
